@@ -314,6 +314,8 @@ Fixpoint ys_eqb (a b : list yielded) : bool :=
   match a, b with [], [] => true | x :: xs, y :: ys => yielded_eqb x y && ys_eqb xs ys | _, _ => false end.
 Definition obs_eqb (r : result) (ys : list yielded) (cwd : path) (raised : bool) : bool :=
   ys_eqb (r_yields r) ys && path_eqb (r_cwd r) cwd && Bool.eqb (r_raised r) raised.
+Fixpoint ys_prefix_eqb (a b : list yielded) : bool :=     (* a is a prefix of b *)
+  match a, b with [], _ => true | x :: xs, y :: ys => yielded_eqb x y && ys_prefix_eqb xs ys | _ :: _, [] => false end.
 Fixpoint lookup {A} (k : path) (l : list (path * A)) : option A :=
   match l with [] => None | (k', v) :: t => if path_eqb k k' then Some v else lookup k t end.
 Fixpoint slookup (k : pystr) (l : list (pystr * bool)) : bool :=
@@ -360,9 +362,9 @@ def model_terms(sc, res):
     if isinstance(paths, str): paths = [paths]
     if q['mode'] == 'cli':
         calls = o.get('cn_calls', [])
-        if len(calls) != 1: return [('cli-mode', 'false')]
+        if len(calls) != 1: return [('cli-mode', 'false', None)]
         b0, r0, p0 = calls[0]
-        if not all(x is None or isinstance(x, str) for x in (b0, r0)): return [('cli-mode', 'false')]
+        if not all(x is None or isinstance(x, str) for x in (b0, r0)): return [('cli-mode', 'false', None)]
         p0 = [] if p0 is None else ([p0] if isinstance(p0, str) else p0)
         tab = '[' + '; '.join('(%s, %s)' % (cs(w), 'true' if v['isref'] else 'false') for w, v in sorted(res['reftable'].items())) + ']'
         isref = '(fun o => match o with None => %s | Some s => slookup s %s end)' % ('true' if res['reftable']['HEAD']['valid'] else 'false', tab)
@@ -371,7 +373,7 @@ def model_terms(sc, res):
         else:
             obs_mode = 'GitMode %s %s (@nil pystr)' % (cref(b0 if b0 is not None else 'WORKTREE'), cref(r0 if r0 is not None else 'WORKTREE'))
         argv = '[' + '; '.join(cs(w) for w in q['argv_pos']) + ']' if q['argv_pos'] else '(@nil pystr)'
-        terms.append(('cli-mode', 'mode_eqb (main_mode src_facts %s %s) (%s)' % (isref, argv, obs_mode)))
+        terms.append(('cli-mode', 'mode_eqb (main_mode src_facts %s %s) (%s)' % (isref, argv, obs_mode), None))
         # what changed_notebooks was really called with
         ra = b0 if b0 is not None else 'WORKTREE'; rb = r0 if r0 is not None else 'WORKTREE'
         if [ra if b0 is not None else 'HEAD', rb] != [q['ref_a'], q['ref_b']] or (p0 or None) != (paths or None):
@@ -379,7 +381,7 @@ def model_terms(sc, res):
     ys = []
     for y in o['yields']:
         a, b = cstream(y[0]), cstream(y[1])
-        if a is None or b is None: return terms + [('streams', 'false')]
+        if a is None or b is None: return terms + [('streams', 'false', None)]
         ys.append('Y %s %s %s' % (a, b, cpath(canon_abs(y[2], base))))
     fs = '[' + '; '.join('(%s, %s)' % (cpath(canon_abs(p, base)), cN(c)) for p, c in f['snapshot']) + ']'
     ft = '[' + '; '.join('(%s, %s)' % (cpath(comps(p)), 'FRaise' if v == 'raise' else '(FSome %s)' % cN(v)) for p, v in sorted(f['filter_at_root'].items()) if v is not None) + ']'
@@ -389,9 +391,14 @@ def model_terms(sc, res):
     qb = cref('HEAD' if ra == 'WORKTREE' else ra)
     W = 'mk_world %s %s %s %s %s %s %s' % (fs or '[]', cpath(root), ft, qb, cref(rb), qp, es)
     mp = '[' + '; '.join(cpath(comps(p)) for p in (paths or [])) + ']'
-    raised = 'true' if o['exc'] else 'false'
-    terms.append(('changed_notebooks', 'obs_eqb (changed_notebooks src_facts (%s) %s %s %s %s %s) [%s] %s %s' % (
-        W, cpath(root), cpath(popped), cref(ra), cref(rb), mp, '; '.join(ys), cpath(canon_abs(o['cwd1'], base)), raised)))
+    call = 'changed_notebooks src_facts (%s) %s %s %s %s %s' % (W, cpath(root), cpath(popped), cref(ra), cref(rb), mp)
+    consumer_raised = q['mode'] == 'cli' and o['exc'] and any('exc' in h for h in o.get('handled', []))
+    if consumer_raised:
+        # nbdiffapp._handle_diff raised while the generator was suspended at its last yield: the yields seen are a prefix
+        terms.append(('changed_notebooks', 'ys_prefix_eqb [%s] (r_yields (%s))' % ('; '.join(ys), call), call))
+    else:
+        terms.append(('changed_notebooks', 'obs_eqb (%s) [%s] %s %s' % (call, '; '.join(ys), cpath(canon_abs(o['cwd1'], base)),
+                                                                       'true' if o['exc'] else 'false'), call))
     return terms
 
 
@@ -414,13 +421,12 @@ def run_model(term_list):
         shutil.rmtree(d, ignore_errors=True)
 
 
-def model_value(term):
+def model_value(call):
     """for a mismatch report: what the model computes (text)"""
-    inner = re.match(r'obs_eqb \((changed_notebooks .*)\) \[', term, re.S)
-    if not inner: return None
+    if not call: return None
     d = tempfile.mkdtemp(prefix='nbv_c17_coq_')
     try:
-        open(os.path.join(d, 'one.v'), 'w').write(PRELUDE + 'Eval vm_compute in (let r := %s in (r_yields r, r_cwd r, r_raised r)).\n' % inner.group(1))
+        open(os.path.join(d, 'one.v'), 'w').write(PRELUDE + 'Definition r := %s.\nEval vm_compute in (r_yields r, r_cwd r, r_raised r).\n' % call)
         p = subprocess.run(['timeout', '120', 'coqc', '-Q', core.COQ, 'NB', 'one.v'], cwd=d, capture_output=True, text=True)
         return (p.stdout + p.stderr)[-1500:]
     finally:
@@ -472,13 +478,13 @@ def run(tier, seed):
                 except Exception: pass
             chk.violation(sig, case, detail)
     # T1
-    terms = []; t1 = 0
+    terms = []; t1 = 0; calls = {}
     for i, (sc, res) in enumerate(zip(cases, results)):
         if 'err' in res: continue
         ts = model_terms(sc, res)
         if ts is None: continue
         t1 += 1
-        for lab, t in ts: terms.append(((i, lab), t))
+        for lab, t, call in ts: terms.append(((i, lab), t)); calls[(i, lab)] = call
     mism = 0
     vo = os.path.join(core.COQ, 'Gen', 'GitRefsFacts.vo')
     if not os.path.exists(vo):
@@ -492,7 +498,7 @@ def run(tier, seed):
             tdict = dict(terms)
             for (i, lab) in sorted(bad)[:3]:
                 chk.broken_obligation('correspondence:' + lab, {'scenario': strip(cases[i]), 'observed': results[i].get('obs'),
-                                                                 'model': model_value(tdict[(i, lab)]) if lab == 'changed_notebooks' else tdict[(i, lab)][:600]})
+                                                                 'model': model_value(calls.get((i, lab))) or tdict[(i, lab)][:600]})
     chk.cov.update({
         'evaluations': len(cases), 'distinct_nontrivial': len(nontrivial),
         'rule': 'scenario = script of write/rm/mv/add/commit/tag operations run with the real git (1-4 commits, staged and unstaged changes, '
@@ -522,7 +528,7 @@ def replay(path):
                       'observed': res.get('obs'), 'git_reports': res.get('facts', {}).get('name_status')}, indent=1, default=str)[:4000])
     ts = model_terms(sc, res) if 'err' not in res else None
     if ts:
-        bad, err = run_model([((0, l), t) for l, t in ts])
+        bad, err = run_model([((0, l), t) for l, t, _ in ts])
         print('model agrees with implementation:', (not bad) if bad is not None else err)
     if sigs:
         print('VIOLATION property=%s replay=%s' % (PROP, path)); return 1
